@@ -290,6 +290,22 @@ def install_seams() -> None:
             return ['cylc', 'play', 'vf']
     S.psutil = type('psutil_stub', (), {'Process': lambda *a: _P()})
 
+    # the importlib.metadata entry-point scan (plugins, main-loop plugins,
+    # xtriggers) costs ~35 ms per scheduler start and is static: memoise
+    import cylc.flow as CF
+    _orig_iep = CF.iter_entry_points
+    _cache: Dict[str, list] = {}
+
+    def iter_entry_points(entry_point_name):
+        if entry_point_name not in _cache:
+            _cache[entry_point_name] = list(_orig_iep(entry_point_name))
+        return iter(_cache[entry_point_name])
+    CF.iter_entry_points = iter_entry_points
+    for name, mod in list(sys.modules.items()):
+        if name.startswith('cylc.flow') and mod is not None and getattr(
+                mod, 'iter_entry_points', None) is _orig_iep:
+            mod.iter_entry_points = iter_entry_points
+
     install_clock()
     _SEAMS_DONE = True
 
